@@ -13,6 +13,8 @@
 import Upnp.Lemmas.C14Ctl
 import Upnp.Lemmas.C14Call
 import Upnp.Lemmas.C14Desc
+import Upnp.Lemmas.C14Svc
+import Upnp.Lemmas.C14Dev
 namespace Upnp.C14
 open Upnp PyDict
 
@@ -103,31 +105,37 @@ theorem handler_error_default (fs : Facts) (stype : Str) (acts : List SAct) (h :
 /-- **Every action invoked through the client model with valid arguments reaches the handler with
     the same typed values and returns the handler's typed results to the caller.**
 
-    For every service type and action name free of `#` and `"`, every action whose in-argument names
-    are distinct, every argument assignment `args` that supplies each in-argument with a value that
-    passes the variable's schema and survives its codec (`ArgsOk`; the codec round trip is
-    `pyInt_decOfInt` for the integer types, trivial for strings and booleans, an assumption recorded
-    in the facts for float / date / time), and every handler result `vals` of out-arguments with
-    valid values (`ValsOk`):
-    * the request written by `create_request` is accepted by `_parse_action_body`, passes
-      `validate_arguments`, and the handler is called with a dictionary holding exactly the caller's
-      value for each in-argument;
-    * the response written by `_create_action_response` is decoded by `parse_response` into exactly
-      the handler's dictionary. -/
-theorem call_roundtrip (fs : Facts) (stype : Str) (acts : List SAct) (act : SAct) (h : Handler)
+    `sact` is the server's action (bound to the server's variables); the client calls with *its own*
+    action object `cactOf fs sact` — the one `client_sees_definition` shows the factory builds from
+    the served SCPD (same argument names, bound to the client's parse `clientVarOf` of each variable).
+    For every service type and action name free of `#` and `"`, distinct in-argument names, every
+    argument assignment `args` that supplies each in-argument with a value which passes the client's
+    schema (`ArgsOk … (cactOf fs sact).ins`, so the client sends it) and the server's (`ArgsOk …
+    sact.ins`) and survives the codec (`pyInt_decOfInt` for the integer types, trivial for strings
+    and booleans, recorded facts for float / date / time), and every handler result `vals` of
+    out-arguments with valid values (`ValsOk`):
+    * the request written by the client's `create_request` is accepted by `_parse_action_body`,
+      passes `validate_arguments`, and the handler is called with a dictionary holding exactly the
+      caller's value for each in-argument and nothing else;
+    * the response written by `_create_action_response` is decoded by the client's `parse_response`
+      into exactly the handler's dictionary. -/
+theorem call_roundtrip (fs : Facts) (stype : Str) (sacts : List SAct) (sact : SAct) (h : Handler)
     (args vals : List (Str × Val))
-    (h1 : '#' ∉ stype) (h2 : '"' ∉ stype) (h3 : '#' ∉ act.name) (h4 : '"' ∉ act.name)
-    (hfind : acts.find? (fun a => a.name = act.name) = some act)
-    (hnd : (act.ins.map (·.name)).Nodup) (hok : ArgsOk fs args act.ins)
-    (hh : h act.name (kwOf args act) = .ret vals) (hv : ValsOk fs act vals) :
-    handlerInput fs acts (reqOf stype act args) = some (act.name, kwOf args act)
-    ∧ (∀ a ∈ act.ins, get? (kwOf args act) a.name = get? args a.name)
-    ∧ (∀ k, k ∉ act.ins.map (·.name) → get? (kwOf args act) k = none)
-    ∧ clientCall fs stype act (serverHandle fs stype acts h) args = .ok (PyDict.ofList vals) := by
-  obtain ⟨hc, hp, hi⟩ := request_reaches_handler (acts := acts) h1 h2 h3 h4 hfind hnd hok
-  refine ⟨hi, ?_, ?_, ?_⟩
+    (h1 : '#' ∉ stype) (h2 : '"' ∉ stype) (h3 : '#' ∉ sact.name) (h4 : '"' ∉ sact.name)
+    (hfind : sacts.find? (fun a => a.name = sact.name) = some sact)
+    (hnd : (sact.ins.map (·.name)).Nodup)
+    (hokC : ArgsOk fs args (cactOf fs sact).ins) (hokS : ArgsOk fs args sact.ins)
+    (hh : h sact.name (kwOf args sact) = .ret vals) (hv : ValsOk fs sact vals) :
+    createRequest fs stype (cactOf fs sact) args = .ok (reqOf stype sact args)
+    ∧ handlerInput fs sacts (reqOf stype sact args) = some (sact.name, kwOf args sact)
+    ∧ (∀ a ∈ sact.ins, get? (kwOf args sact) a.name = get? args a.name)
+    ∧ (∀ k, k ∉ sact.ins.map (·.name) → get? (kwOf args sact) k = none)
+    ∧ clientCall fs stype (cactOf fs sact) (serverHandle fs stype sacts h) args = .ok (PyDict.ofList vals) := by
+  obtain ⟨_, hp, hi⟩ := request_reaches_handler (acts := sacts) h1 h2 h3 h4 hfind hnd hokS
+  have hc := createRequest_cactOf (stype := stype) hokC
+  refine ⟨hc, hi, ?_, ?_, ?_⟩
   · intro a ha
-    obtain ⟨v, hv', _, _⟩ := hok a ha
+    obtain ⟨v, hv', _, _⟩ := hokS a ha
     rw [get?_kwOf hnd ha, hv']; simp [argVal, hv']
   · intro k hk
     rw [get?_eq_none_iff]
@@ -142,6 +150,7 @@ theorem call_roundtrip (fs : Facts) (stype : Str) (acts : List SAct) (act : SAct
     simp only
     rw [hs, hh]
     simp only [responseKids_ok hv]
+    rw [clientDecode_cactOf]
     exact response_reaches_caller hv
 
 /-- non-vacuity of `call_roundtrip`: a `ui2` argument restricted to 1..10 and a string argument,
@@ -154,10 +163,10 @@ example :
     let args : List (Str × Val) := [("S".toList, .str "b<&>".toList), ("A".toList, .int 5)]
     let vals : List (Str × Val) := [("R".toList, .int (-7)), ("S2".toList, .str "a".toList)]
     let stype := "urn:schemas-upnp-org:service:S0:1".toList
-    clientCall [] stype act (serverHandle [] stype [act] (fun _ _ => .ret vals)) args = .ok vals
+    clientCall [] stype (cactOf [] act) (serverHandle [] stype [act] (fun _ _ => .ret vals)) args = .ok vals
     ∧ handlerInput [] [act] (reqOf stype act args)
         = some ("Act".toList, [("A".toList, .int 5), ("S".toList, .str "b<&>".toList)])
-    ∧ clientCall [] stype act (serverHandle [] stype [act] (fun _ _ => .err (some 714))) args
+    ∧ clientCall [] stype (cactOf [] act) (serverHandle [] stype [act] (fun _ _ => .err (some 714))) args
         = .actionError (some 714) (some 500) := by
   decide +kernel
 
@@ -167,7 +176,7 @@ example :
     definition** (`varMatches`: same name, data type and evented flag; typed minimum, maximum —
     each possibly absent, one-sided ranges included — and default equal; allowed values equal as a
     set of typed values), for every well-formed definition (`VarWF`: blank-free name, supported type,
-    texts that coerce to values which survive `str()` and the type's `in` coercer — automatic for the
+    texts that coerce to values which survive the type's `out` and `in` coercers — automatic for the
     integer, string and boolean families, see `rtok_modelled`). -/
 theorem client_sees_variable (fs : Facts) (vd : VarDef) (h : VarWF fs vd) :
     parseVar (serializeVar fs vd) = some (clientVarOf fs vd)
@@ -182,25 +191,58 @@ example :
     (parseVar (serializeVar [] v1)).map (fun c => (c.evented, c.min, c.max, c.default))
         = some (true, some "7".toList, none, some "9".toList)
     ∧ varMatches [] v1 (viewOf [] (clientVarOf [] v1)) = true
-    ∧ (parseVar (serializeVar [] v2)).map (·.allowed) = some (some ["True".toList])
+    ∧ (parseVar (serializeVar [] v2)).map (·.allowed) = some (some ["1".toList])
     ∧ varMatches [] v2 (viewOf [] (clientVarOf [] v2)) = true := by
   decide +kernel
 
-/-- **The whole served state table is read back as the definition**, variable by variable and in
-    order, and the client's eager schema construction (`_state_variable_create_schema`) succeeds.
-    (Full statement of `client_sees_definition` also covers the action list with its argument
-    bindings and the device tree with embedded devices; those parts are not proved — see
-    design/C14.md — and are checked on every run by the correspondence and the judge `svcMatches` /
-    `devMatches`.) -/
-theorem client_sees_definition_partial (fs : Facts) (vars : List VarDef) (hw : ∀ vd ∈ vars, VarWF fs vd) :
-    parseVars fs (vars.map (serializeVar fs)) = some (vars.map (clientVarOf fs))
-    ∧ allMatch (varMatches fs) vars ((vars.map (clientVarOf fs)).map (viewOf fs)) = true := by
-  refine ⟨parseVars_serialize hw, ?_⟩
+/-- **The served service description is parsed by the client into a model equal to the
+    definition**: for every list of well-formed variables and every list of action definitions that
+    the server can construct (`resolveActs`: each argument names an existing variable), the
+    factory's parse of the served SCPD succeeds, yields for every variable its `clientVarOf` (in
+    order, the eager schema construction succeeds) and for every action the client action `cactOf`
+    — same name, same in- and out-argument names in the same order and directions, each bound to
+    the client's variable of the same name — and the judge `svcMatches` holds between the definition
+    and that client model. -/
+theorem client_sees_definition (fs : Facts) (vars : List VarDef) (adefs : List ActDef) (sacts : List SAct)
+    (hw : ∀ vd ∈ vars, VarWF fs vd) (hres : resolveActs vars adefs = some sacts) :
+    parseScpd fs (serializeScpd fs vars sacts) = some (vars.map (clientVarOf fs), sacts.map (cactOf fs))
+    ∧ svcMatches fs vars adefs ((vars.map (clientVarOf fs)).map (viewOf fs))
+        ((sacts.map (cactOf fs)).map actViewOf) = true := by
+  obtain ⟨hads, hb⟩ := resolveActs_spec hres
+  refine ⟨parseScpd_serializeScpd fs vars sacts hw hb, ?_⟩
+  unfold svcMatches
+  rw [← hads, allMatch_acts, Bool.and_true]
+  clear hres hads hb
   induction vars with
   | nil => rfl
   | cons vd r ih =>
     simp only [List.map_cons, allMatch, Bool.and_eq_true]
     exact ⟨var_roundtrip (hw vd List.mem_cons_self), ih (fun x hx => hw x (List.mem_cons_of_mem _ hx))⟩
+
+/-- **The served device description is parsed into a device tree equal to the definition, whatever
+    its depth**: for every device tree whose devices carry the twelve `DeviceInfo` text fields
+    (`DevDef.wf`), the client's parse of the served document — run with any fuel `n` not smaller than
+    the tree's depth — matches the definition (`devMatches`: text fields with `None` ≃ `""`, the same
+    service records in the same order, and recursively the same embedded devices). The driver uses
+    fuel 64. -/
+theorem client_sees_device_tree (d : DevDef) (hwf : d.wf) (n : Nat) (hn : d.depth ≤ n) :
+    parseRoot n (serializeRoot d) = some (parseDevEl n (serializeDev d))
+    ∧ devMatches (n + 1) d (parseDevEl n (serializeDev d)) = true := by
+  refine ⟨?_, dev_roundtrip n d (fits_le hn d (fits_depth d hwf))⟩
+  have hne : dq "specVersion" ≠ dq "device" := by decide
+  simp [parseRoot, serializeRoot, Xml.find, specVersion, tag_serializeDev, hne]
+
+/-- non-vacuity of `client_sees_device_tree`: a root with two embedded devices, one of which embeds
+    a third (depth 2), services on three levels -/
+example :
+    let f : Nat → List (Option Str) := fun k =>
+      [some "urn:d".toList, some "F<&>".toList, some "M".toList, none, none, some "N".toList, none, none, none,
+       some (("uuid:" ++ toString k).toList), none, some [] ]
+    let s : Nat → SvcInfo := fun k => ⟨("urn:s" ++ toString k).toList, "id".toList, "/c".toList, "/e".toList, "/s".toList⟩
+    let d : DevDef := .mk (f 0) [s 0] [.mk (f 1) [] [.mk (f 2) [s 2, s 3] []], .mk (f 3) [s 1] []]
+    d.wf ∧ d.depth = 2 ∧ devMatches 3 d (parseDevEl 2 (serializeDev d)) = true
+    ∧ devMatches 2 d (parseDevEl 1 (serializeDev d)) = false := by
+  refine ⟨by simp [DevDef.wf, wfL], by decide, by decide +kernel, by decide +kernel⟩
 
 /-- non-vacuity of the invalid-request theorems: an unparseable `ui2` text, an omitted argument and
     an out-of-range value are invalid requests; the model answers 400, 400 and fault 402 -/
